@@ -421,6 +421,14 @@ SHAPES_SET = {
     "shq/HoldsEmpties.1.0.dsdl": "shq.Empty.1.0 a\nshq.Empty.1.0[3] b\nshq.Empty.1.0[<=3] c\nshq.PadOnly.1.0 d\nshq.UnionOfEmpties.1.0 e\n@sealed\n",
     "shq/OnlyNested.1.0.dsdl": "shq.FloatConstOnly.1.0 a\nshq.BoolFieldOnly.1.0[<=2] b\n@extent 64\n",
     "shq/ByteArrays.1.0.dsdl": "uint8[0] z0\nuint8[<=0] z1\nbyte[<=1] b\nutf8[<=1] s\n@sealed\n" if False else "byte[<=1] b\nutf8[<=1] s\nuint8[1] one\n@sealed\n",
+    # the only integers are byte / utf8 (sub-kinds of the unsigned integer); fixed arrays of bits and of something else side by side
+    "shq/ByteOnly.1.0.dsdl": "byte[<=8] data\n@sealed\n",
+    "shq/Utf8Only.1.0.dsdl": "utf8[<=10] text\nfloat32 f\n@sealed\n",
+    "shq/ByteFixedOnly.1.0.dsdl": "byte[4] data\nbool b\n@sealed\n",
+    "shq/SvcByteOnly.1.0.dsdl": "utf8[<=4] q\n@sealed\n---\nbyte[2] r\n@sealed\n",
+    "shq/MixedFixed.1.0.dsdl": "bool[5] flags\nfloat32[3] v\n@sealed\n",
+    "shq/MixedFixedU.1.0.dsdl": "@union\nbool[12] flags\nfloat64[2] v\nshq.Empty.1.0[2] e\n@sealed\n",
+    "shq/SvcMixedFixed.1.0.dsdl": "bool[3] flags\n@sealed\n---\nfloat16[3] v\nbool[2] more\n@sealed\n",
     "shq/Dep.1.0.dsdl": "@deprecated\nvoid8\n@sealed\n",
     "shq/300.DepSvc.1.0.dsdl": "@deprecated\nshq.Dep.1.0 d\n@sealed\n---\n@sealed\n",
     "shq/Wide.1.0.dsdl": "uint64 a\nint64 b\nfloat64 c\nuint64[<=2] d\ntruncated uint63 e\nsaturated int63 f\nuint64 MAXU = 18446744073709551615\n@sealed\n",
@@ -498,6 +506,11 @@ def one_set(ctx, idx, cflags, cxxflags):
     for lang, flags, omit, vname, vflags, ccflags in configs:
         tag = "%s_%s_%s%s" % (lang, "".join(flags[1:]).replace("+", "p") or "default", "omit" if omit else "ser", "_" + vname if vname else "")
         out = os.path.join(d, "out_" + tag)
+        if vname and lang in ("c", "cpp"):
+            # the output directory already holds what the same command line without the option made (a user who switches an option on
+            # regenerates in place): what the directory holds afterwards must build like a fresh generation
+            genrun.nnvg_all_roots(dsdl_dir, roots, out, lang, extra=flags, cwd=d)
+            ctx.count("generations_over_output_of_other_options")
         rs = genrun.nnvg_all_roots(dsdl_dir, roots, out, lang, extra=flags + vflags + (["--omit-serialization-support"] if omit else []), cwd=d)
         ctx.count("evaluations")
         ctx.count("generations")
